@@ -17,7 +17,8 @@ EXPLANATION = (
     "definite str/bytes confusion, X3 DER-sequence index discipline "
     "(nr_elements / len guard), X4 constant subscripts without a proven "
     "minimum length (interval facts from len() guards, computed by the "
-    "abstract interpreter), X5 divisors taken from decoded input — minus what "
+    "abstract interpreter), X5 divisors taken from decoded input, X6 members of a "
+    "SEQUENCE decoded without only_ints_expected used as numbers — minus what "
     "enclosing handlers catch, compared with the documented exception set of "
     "every decoder entry point. Rule G: DER/unpad strictness on a table of "
     "distinguishing encodings and by region enumeration. Not decided: "
@@ -123,6 +124,33 @@ def x4_sites(repo, m, f):
     return out
 
 
+def tuple_return_proves(repo, m, f, node):
+    """`k = g(...)` ... `k[i]` where every `return` of the resolved callee g is a tuple literal with more than i
+    members: the subscript cannot raise (the interval analysis does not look into g)."""
+    from ..callgraph import callees
+    if not (isinstance(node, ast.Subscript) and isinstance(node.value, ast.Name)):
+        return False
+    idx = node.slice
+    if isinstance(idx, ast.UnaryOp) and isinstance(idx.op, ast.USub) and isinstance(idx.operand, ast.Constant):
+        need = idx.operand.value
+    elif isinstance(idx, ast.Constant) and isinstance(idx.value, int):
+        need = idx.value + 1
+    else:
+        return False
+    assigns = [n for n in walk_no_nested(f) if isinstance(n, (ast.Assign, ast.AugAssign, ast.For, ast.With)) and
+               any(isinstance(t, ast.Name) and t.id == node.value.id
+                   for t in (n.targets if isinstance(n, ast.Assign) else [getattr(n, "target", None)]) if t is not None)]
+    if len(assigns) != 1 or not isinstance(assigns[0], ast.Assign) or not isinstance(assigns[0].value, ast.Call):
+        return False
+    res = [r for (c, r, t) in callees(repo, m, f) if c is assigns[0].value]
+    if len(res) != 1 or res[0] is None:
+        return False
+    g = res[0][1]
+    rets = [n for n in walk_no_nested(g) if isinstance(n, ast.Return)]
+    return bool(rets) and all(isinstance(r.value, ast.Tuple) and len(r.value.elts) >= need and
+                              not any(isinstance(e, ast.Starred) for e in r.value.elts) for r in rets)
+
+
 def run(check, ctx):
     repo = ctx.repo
     funcs = decoder_functions(repo)
@@ -151,6 +179,8 @@ def run(check, ctx):
                          extracted="`%s` unproven by the interval analysis; reviewed: %s" % (norm(node), X4_REVIEWED[key3]),
                          expected="constant subscript with a proven minimum length")
                 continue
+            if tuple_return_proves(repo, m, f, node):
+                continue
             why = "minimum length of `%s` not established by a dominating guard" % norm(node.value)
             if id(node) in x3:
                 why = "DER sequence decoded without nr_elements/len guard (nr_elements.min=%s)" % x3[id(node)][3]
@@ -160,9 +190,14 @@ def run(check, ctx):
     if n_x3 < 35:
         raise AnalysisError("X3 saw %d DER index sites (confirmed: 39 inside the decoder layer)" % n_x3)
     # X5: divisors from decoded input
-    from .c13_extra import x5_sites, strictness, regex_lint, kdf_gate
+    from .c13_extra import x5_sites, x6_sites, strictness, regex_lint, kdf_gate
     for (m, f, node, why) in x5_sites(repo, funcs):
         intrinsic.setdefault(id(f), []).append((node, "ZeroDivisionError", why))
+    n_x6 = 0
+    for (m, f, node, why) in x6_sites(repo, funcs):
+        n_x6 += 1
+        intrinsic.setdefault(id(f), []).append((node, "TypeError", why))
+    check.count("x6_non_integer_member_sites", n_x6)
     E = Escapes(repo, intrinsic, follow=lambda mod: mod.name in DEC,
                 suppress_edges=X4_EDGES)
     # --- obligations at the entry points -----------------------------------
